@@ -12,6 +12,7 @@ TRUSTED = [
     'Generated/Ucd.v: \\w, \\d, str.isdigit, str.isdecimal of the running interpreter as range trees, regenerated every run; Generated/PyFmtInfo.v',
     'extraction (ExtrOcamlBasic only) + ocaml/driver.ml',
     'the `re` engine is modelled, not verified; its running time is measured, not proved',
+    'tools/gen/gen_brace_src.py (python ast -> Gallina translation of perlbrace/pybrace FormatString.__init__, add_argument, Field.__init__; rules in its docstring) + Model/FmtBracePy.v (its target vocabulary: re.finditer as iteration of the one-attempt scanners, objects as cells of the map)',
 ]
 ASSUME = ['the step count of C13_perl_linear counts character inspections of the model scanner (incl. the search finditer continues after a failed attempt), not the re engine\'s',
           'time linearity on the real code is measured on pumped families (t(2n)/t(n) < 3), not proved']
